@@ -463,13 +463,25 @@ pub fn k9(dir: &str, thorough: bool, seed: u64) {
             let a0 = names[0].clone();
             formulas.push(format!("(!{{x}}: AX {{x}}) & (!{{x}}: 3{{y}}: (@{{y}}: (~{{x}} & EF ({{x}} | {a0}))))"));
         }
+        // planted: a file that contains weak until (and EF/AG/EU) but none of EX, AX, AF, EG, AU — the steady states still
+        // matter for EW (a tool that computes them only "when needed" must not forget it)
+        if (i % 5 == 2 || i % 5 == 0) && !use_ctx {
+            let n0 = names[0].clone();
+            let n1 = if names.len() > 1 { names[1].clone() } else { s("false") };
+            formulas = vec![
+                format!("{n0} EW {n1}"),
+                format!("(~{n0}) EW ({n1} & {n0})"),
+                format!("true EW false"),
+                format!("EF ({n0} AW {n1})"),
+            ];
+        }
         // planted: the same formula on two consecutive lines, and two consecutive lines that preprocess to the same tree
         // (renamed variable, long spelling): every line must still get its own entry `formula-i`
         if i % 2 == 0 {
             let last = formulas[formulas.len() - 1].clone();
             formulas.push(last);
         }
-        if i % 4 == 1 {
+        if i % 4 == 1 && i % 5 != 2 && i % 5 != 0 {
             formulas.push(s("!{x}: AX {x}"));
             formulas.push(s("\\bind {y}:  (AX {y})"));
             formulas.push(format!("EF {}", names[0]));
